@@ -26,6 +26,7 @@ def run(ctx):
     res += ic.tour(ctx, [("Sim_IndexTwin.cfg", 15 if q else 300, 10)],
                    {"idempotence": True, "rebuild": False, "names": {1: "work/journal.zo", 2: "home/journal.zo"}}, cats, "C05")
     ic.random_histories(ctx, "C05", {"create"})
+    ic.bulk_create(ctx, "C05")
     for x in res[:2]:
         ctx.sample({"behaviour": x["actions"], "commands": x["commands"]})
     ic.finish(ctx, "behaviours = random walks of the TLC simulator over Index.tla (3 pages in two directories, <=3 notes each, long "
